@@ -78,3 +78,70 @@ for _n, _t in (('serialize_i64', 'i64'), ('serialize_u64', 'u64'), ('serialize_i
     ITEMS.append(_scalar_entry(_n, r'fn %s\(self, v: %s\) -> Result<\(\)>' % (_n, _t), 'fn %s(&mut self, v: %s) -> Result<(), SerError>' % (_n, _t),
                   r'self\.out\.write_decimal\(Ghost\(v as int\)\)\?;', 'C12:an_integer_is_written_as_its_decimal_digits_and_nothing_else', 'decimal_text(v as int)',
                   extra_rw=[(r'write!\(self\.out, "\{\}", v\)\?;', 'self.out.write_decimal(Ghost(v as int))?;', 1, 'R12')]))
+
+# ---- sequences and ordinary tuple structs (F35 / F36 / F37): a tuple struct is the sequence `serialize_seq` opens for it — same depth, same flow
+# flag, "first" exactly for field 0 — and opening a block sequence writes no line break of its own (so an empty one stays `key: []` under every
+# option), except after an anchor, where the first dash then starts an indented line of its own.  SeqSer / TupleSer / TupleKind are the real types. ----
+SUBST += [
+    (r"SeqSer<'a, 'b, W: Write>", "SeqSer<'a, 'b>"), (r"TupleSer<'a, 'b, W: Write>", "TupleSer<'a, 'b>"),
+    (r"impl<'a, 'b, W: Write> TupleSer<'a, 'b, W>", "impl<'a, 'b> TupleSer<'a, 'b>"),
+    (r"SeqSer<'a, 'b, W>", "SeqSer<'a, 'b>"), (r"YamlSerializer<'b, W>", "YamlSerializer<'b>"),
+]
+_ANCHOR_HELPER = dict(src=SR, path='impl YamlSerializer/fn write_anchor_for_complex_node', trusted=True, props=[],
+    rewrites=[(r'-> Result<\(\)>', '-> Result<(), SerError>', 1, 'R6')],
+    # assumed (read off its body: `if let Some(id) = self.pending_anchor_id.take() { … self.newline()?; }`): without a staged anchor it is a no-op;
+    # with one it ends the line after `&name` and touches none of the layout hints
+    ensures=[('assumed:without_a_staged_anchor_nothing_is_written', '''old(self).pending_anchor_id is None ==> r is Ok && final(self).out.text() == old(self).out.text()
+                    && final(self).pending_space_after_colon == old(self).pending_space_after_colon && final(self).at_line_start == old(self).at_line_start'''),
+             ('assumed:after_a_staged_anchor_the_line_is_ended', 'old(self).pending_anchor_id is Some && r is Ok ==> final(self).at_line_start'),
+             ('assumed:layout_hints_are_not_touched', '''final(self).pending_anchor_id is None && final(self).pending_inline_map == old(self).pending_inline_map
+                    && final(self).after_dash_depth == old(self).after_dash_depth && final(self).current_map_depth == old(self).current_map_depth
+                    && final(self).depth == old(self).depth && final(self).compact_list_indent == old(self).compact_list_indent
+                    && final(self).last_value_was_block == old(self).last_value_was_block''')])
+ITEMS += [
+    _ANCHOR_HELPER,
+    dict(src=SR, path='impl YamlSerializer/fn newline', props=['C20', 'C01'],
+         rewrites=[(r'-> Result<\(\)>', '-> Result<(), SerError>', 1, 'R6')],
+         ensures=[('value', "r is Ok ==> final(self).out.text() == old(self).out.text().push('\\n') && final(self).at_line_start"),
+                  ('frame', '''final(self).pending_space_after_colon == old(self).pending_space_after_colon && final(self).pending_anchor_id == old(self).pending_anchor_id
+                        && final(self).pending_inline_map == old(self).pending_inline_map && final(self).after_dash_depth == old(self).after_dash_depth
+                        && final(self).current_map_depth == old(self).current_map_depth && final(self).depth == old(self).depth
+                        && final(self).compact_list_indent == old(self).compact_list_indent && final(self).last_value_was_block == old(self).last_value_was_block''')],
+         canaries=['value']),
+    dict(src=SR, path='struct SeqSer'),
+    dict(src=SR, path='enum TupleKind', derive='#[derive(Clone, Copy, PartialEq, Eq)]'),
+    dict(src=SR, path='struct TupleSer'),
+    dict(src=SR, path='impl TupleSer/fn normal', props=['C12', 'C20', 'C01'],
+         ensures=[('C12:an_ordinary_tuple_struct_takes_depth_and_flow_from_the_sequence_opened_for_it_and_starts_at_field_0',
+                   'r.kind == (TupleKind::Normal { flow: seq.flow }) && r.idx == 0 && r.depth_for_normal == seq.depth')],
+         canaries=['C12:an_ordinary_tuple_struct_takes_depth_and_flow_from_the_sequence_opened_for_it_and_starts_at_field_0']),
+    dict(src=SR, path='impl Serializer for &mut YamlSerializer/fn serialize_tuple_struct', id='YamlSerializer::serialize_tuple_struct#normal', props=['C12', 'C20', 'C01'],
+         impl_header="impl<'b> YamlSerializer<'b>",
+         fragment=r'(?<=\} else \{)(?:\s*//[^\n]*)*\s*let seq = [^;]*;\s*Ok\(TupleSer::normal\(seq\)\)', fragment_flags='S',
+         wrapper="fn tuple_struct_normal_open<'a>(&'a mut self) -> Result<TupleSer<'a, 'b>, SerError> { {FRAG} }",
+         pre_rewrites=[(r'let seq = self\.serialize_seq\(([^()]*)\)\?;', r'let seq = seq_open(self, \1)?;', 1, 'R8')],
+         ensures=[('C12:an_ordinary_tuple_struct_is_opened_as_a_sequence', 'r is Ok ==> r->Ok_0.kind is Normal && r->Ok_0.idx == 0')],
+         canaries=['C12:an_ordinary_tuple_struct_is_opened_as_a_sequence']),
+    dict(src=SR, path='impl SerializeTupleStruct for TupleSer/fn serialize_field', id='TupleSer::serialize_field#normal', props=['C12', 'C20', 'C01'],
+         impl_header="impl<'a, 'b> TupleSer<'a, 'b>",
+         fragment=r'(?<=TupleKind::Normal \{ flow \} => \{).*?SerializeSeq::serialize_element\([^;]*;', fragment_flags='S',
+         wrapper='fn tuple_field_normal(&mut self, flow: bool, value: SerVal) -> Result<(), SerError> { {FRAG} Ok(()) }',
+         pre_rewrites=[(r'SerializeSeq::serialize_element\(&mut (\w+), value\)\?;', r'seq_element(&mut \1, value)?;', 1, 'R8')],
+         proofs=[dict(before_re=r'seq_element\(&mut \w+, value\)\?;', label='C12:a_field_of_a_tuple_struct_is_written_as_an_element_of_the_sequence_opened_for_it_the_first_one_for_field_0',
+                      text='assert(seq.depth == self.depth_for_normal && seq.flow == flow && seq.first == (self.idx == 0));')],
+         ensures=[('the_result_of_the_element_is_passed_on', 'true')]),
+    dict(src=SR, path='impl Serializer for &mut YamlSerializer/fn serialize_seq', id='YamlSerializer::serialize_seq#block_open', props=['C20', 'C12', 'C01'],
+         impl_header="impl<'b> YamlSerializer<'b>",
+         fragment=r'let was_inline_value = !self\.at_line_start;.*Ok\(SeqSer \{[^}]*\}\)', fragment_flags='S',
+         wrapper="fn seq_open_block<'a>(&'a mut self) -> Result<SeqSer<'a, 'b>, SerError> { {FRAG} }",
+         requires=[('assumed:nesting_depth_below_usize_max', '''old(self).depth < usize::MAX && (old(self).after_dash_depth is Some ==> old(self).after_dash_depth->0 < usize::MAX)
+                        && (old(self).current_map_depth is Some ==> old(self).current_map_depth->0 < usize::MAX)''')],
+         ensures=[('C20:opening_a_block_sequence_writes_no_line_break_of_its_own_so_an_empty_one_stays_on_the_line_of_its_key', '''r is Ok && old(self).pending_anchor_id is None ==> ({ let q = r->Ok_0;
+                        q.ser.out.text() == old(self).out.text() && q.ser.pending_space_after_colon == old(self).pending_space_after_colon
+                        && q.first && !q.flow })'''),
+                  ('C12:the_first_item_of_an_anchored_block_sequence_starts_a_line_of_its_own', '''r is Ok && old(self).pending_anchor_id is Some ==> ({ let q = r->Ok_0;
+                        q.ser.at_line_start && !q.ser.pending_inline_map && q.first && !q.flow })'''),
+                  ('C12:items_under_a_dash_are_indented_one_level_deeper_than_that_dash', '''r is Ok && !old(self).at_line_start && old(self).after_dash_depth is Some && !old(self).pending_space_after_colon
+                        ==> r->Ok_0.depth == old(self).after_dash_depth->0 + 1''')],
+         canaries=['C20:opening_a_block_sequence_writes_no_line_break_of_its_own_so_an_empty_one_stays_on_the_line_of_its_key']),
+]
